@@ -575,8 +575,69 @@ def pool_groups(src):
     return dict(dispatch=disp, pars=sorted(pars, reverse=True), remove_keys=keys, wiring=sorted(wiring))
 
 
-@generator('TransmissionFacts', [DIS, NET, DST])
+def pools_container(src):
+    """ MixingPools (plural): `remove_uids` and `step` must reach EVERY sub-pool: `for mp in self.pools: mp.<method>(<args>)` """
+    out = {}
+    for meth, nargs in (('remove_uids', 1), ('step', 0)):
+        fn = src.func(NET, meth, 'MixingPools')
+        args = [a.arg for a in fn.args.args][1:]
+        ok = False
+        body = [n for n in fn.body if not (isinstance(n, ast.Expr) and isinstance(n.value, ast.Constant)) and not (isinstance(n, ast.Return) and n.value is None)]
+        if len(body) == 1 and isinstance(body[0], ast.For) and unparse(body[0].iter) == 'self.pools' and isinstance(body[0].target, ast.Name) \
+                and len(body[0].body) == 1 and isinstance(body[0].body[0], ast.Expr) and isinstance(body[0].body[0].value, ast.Call) and not body[0].orelse:
+            c = body[0].body[0].value
+            ok = (unparse(c.func) == f'{body[0].target.id}.{meth}' and [unparse(a) for a in c.args] == args[:nargs] and len(args) == nargs and not c.keywords)
+        out[meth] = (ok, ' '.join(' ; '.join(unparse(n) for n in body).split())[:160])
+    return out
+
+
+TIME = 'starsim/time.py'
+
+
+def timepar_set(src):
+    """ `TimePar.set`: under which test a supplied base value `v` is stored, as a Boolean function of (the argument is None,
+        the argument is zero); and what the in-place operators hand to `set` """
+    fn = src.func(TIME, 'set', 'TimePar')
+    names = [a.arg for a in fn.args.args]
+    if 'v' not in names:
+        raise ExtractError(f'TimePar.set signature changed: {names}')
+    guard = None; var = None
+    for n in ast.walk(fn):
+        if isinstance(n, ast.If) and not n.orelse and len(n.body) == 1:
+            b = n.body[0]
+            if isinstance(b, ast.Assign) and len(b.targets) == 1 and unparse(b.targets[0]) == 'self.v' and unparse(b.value) == 'v':
+                guard, var = n.test, 'v'
+            elif isinstance(b, ast.Expr) and isinstance(b.value, ast.Call) and unparse(b.value.func) == 'setattr' and len(b.value.args) == 3 \
+                    and unparse(b.value.args[0]) == 'self' and isinstance(b.value.args[2], ast.Name):
+                guard, var = n.test, b.value.args[2].id      # generic loop over the supplied arguments: the same test for every one, `v` included
+    if guard is None:
+        raise ExtractError('TimePar.set: no `if <test>: self.v = v` found')
+
+    def tr(node):
+        t = unparse(node)
+        if t in (f'{var} is not None', f'not {var} is None', f'not ({var} is None)', f'{var} != None'): return '(!isNone)'
+        if t in (f'{var} is None', f'{var} == None'): return 'isNone'
+        if t in (var, f'bool({var})', f'np.any({var})', f'any({var})', f'{var} != 0', f'np.any({var} != 0)'): return '(!isNone && !isZero)'     # truthiness: None and 0 are both falsy
+        if t in (f'not {var}', f'{var} == 0'): return '(isNone || isZero)' if t.startswith('not') else '(!isNone && isZero)'
+        if isinstance(node, ast.BoolOp):
+            return '(' + (' && ' if isinstance(node.op, ast.And) else ' || ').join(tr(v) for v in node.values) + ')'
+        if isinstance(node, ast.UnaryOp) and isinstance(node.op, ast.Not):
+            return f'(!{tr(node.operand)})'
+        raise ExtractError(f'TimePar.set: unsupported test `{t[:60]}` on the supplied value')
+    inplace = []
+    for meth in ('__imul__', '__itruediv__', '__mul__', '__rmul__'):
+        m = src.func(TIME, meth, 'TimePar')
+        rets = [n for n in m.body if isinstance(n, ast.Return)]
+        if len(rets) != 1:
+            raise ExtractError(f'TimePar.{meth}: expected a single return')
+        inplace.append((meth, unparse(rets[0].value)))
+    return dict(test=tr(guard), test_src=unparse(guard), inplace=inplace)
+
+
+@generator('TransmissionFacts', [DIS, NET, DST, TIME])
 def gen(src):
+    pc = pools_container(src)
+    ts = timepar_set(src)
     cmp, order, cmp_src = kernel(src)
     inf = infect(src)
     plain, plain_src = net_beta(src, 'Network')
@@ -662,9 +723,19 @@ def poolGroupPars : List (String × String) := [{pairs(pg['pars'])}]
 def poolRemoveKeys : List String := [{', '.join(lean_str(x) for x in pg['remove_keys'])}]
 /-- `MixingPools.init_pre`: what each sub-pool is constructed from -/
 def poolsWiring : List (String × String) := [{pairs(pg['wiring'])}]
+/-- `MixingPools.remove_uids` is `{pc['remove_uids'][1]}`: the removal is forwarded to EVERY sub-pool -/
+def poolsRemoveForwards : Bool := {'true' if pc['remove_uids'][0] else 'false'}
+/-- `MixingPools.step` is `{pc['step'][1]}`: every sub-pool is stepped -/
+def poolsStepForwards : Bool := {'true' if pc['step'][0] else 'false'}
+/-- `TimePar.set`: a supplied base value is stored iff `{ts['test_src']}` (as a function of: the argument is None, the argument is zero) -/
+def timeparSetStores (isNone isZero : Bool) : Bool :=
+  {ts['test']}
+/-- `TimePar`: what the scaling operators return (all go through `set`) -/
+def timeparScaling : List (String × String) := [{pairs(ts['inplace'])}]
 end StarsimModel.Gen
 '''
-    facts = dict(age_group_recompute=ag['test_src'], age_group_low=ag['low'], age_group_high=ag['high'], age_group_init_ti=ag['init_ti'],
+    facts = dict(pools_remove=pc['remove_uids'][1], pools_step=pc['step'][1], timepar_set_test=ts['test_src'], timepar_scaling=[list(x) for x in ts['inplace']],
+                 age_group_recompute=ag['test_src'], age_group_low=ag['low'], age_group_high=ag['high'], age_group_init_ti=ag['init_ti'],
                  pool_get_uids=[list(x) for x in pg['dispatch']], pool_group_pars=[list(x) for x in pg['pars']],
                  pool_remove_keys=pg['remove_keys'], pools_wiring=[list(x) for x in pg['wiring']],
                  transmits=cmp_src, kernel_returns=order, eff_trans=inf['eff_trans_src'], eff_sus=inf['eff_sus_src'],
